@@ -282,3 +282,103 @@ pub fn hash_bytes(bs: &[u8]) -> u64 {
     }
     h
 }
+
+// ---------------------------------------------------------------------------
+// Parallel enumeration of all N-subsets of the 52 deck indices (ascending
+// order inside each subset). Work units are the first two indices.
+
+/// SplitMix64 finaliser: seeded, thread-independent selection of sub-samples.
+#[inline]
+pub fn mix(mut z: u64) -> u64 {
+    z = (z ^ (z >> 30)).wrapping_mul(0xBF58_476D_1CE4_E5B9);
+    z = (z ^ (z >> 27)).wrapping_mul(0x94D0_49BB_1331_11EB);
+    z ^ (z >> 31)
+}
+
+#[inline]
+pub fn hand_code(c: &[u8]) -> u64 {
+    let mut x = 0u64;
+    for &i in c {
+        x = (x << 6) | i as u64;
+    }
+    x
+}
+
+/// true for about one in `n` hands, chosen by a seeded hash of the hand
+#[inline]
+pub fn selected(c: &[u8], seed: u64, salt: u64, n: u64) -> bool {
+    n <= 1 || mix(hand_code(c) ^ seed.wrapping_mul(0x9E37_79B9_7F4A_7C15) ^ salt) % n == 0
+}
+
+pub fn par_subsets<const N: usize, X, MK, W>(ctx: &Ctx, unit_stride: usize, mk: MK, work: W) -> Vec<St<X>>
+where
+    X: Send,
+    MK: Fn() -> X + Sync,
+    W: Fn(&mut St<X>, &[u8; N], usize) + Sync,
+{
+    assert!(N >= 3 && N <= 8);
+    let units = pairs(52);
+    let ids: Vec<usize> = (0..units.len()).filter(|u| u % unit_stride.max(1) == 0).collect();
+    par_run(ctx, ids.len(), mk, |st, ui| {
+        let u = ids[ui];
+        let (a, b) = units[u];
+        let k = N - 2;
+        if (b as usize) + k > 51 {
+            return;
+        }
+        let mut c = [0u8; N];
+        c[0] = a;
+        c[1] = b;
+        for j in 0..k {
+            c[2 + j] = b + 1 + j as u8;
+        }
+        loop {
+            work(st, &c, u);
+            // next combination of the tail within (b, 52)
+            let mut i = N - 1;
+            loop {
+                let maxv = 52 - (N - i) as u8; // largest value position i may take
+                if c[i] < maxv {
+                    c[i] += 1;
+                    for j in (i + 1)..N {
+                        c[j] = c[j - 1] + 1;
+                    }
+                    break;
+                }
+                if i == 2 {
+                    return;
+                }
+                i -= 1;
+            }
+        }
+    })
+}
+
+/// seeded permutation of a fixed-size array
+#[inline]
+pub fn permuted<const N: usize>(c: &[u8; N], rng: &mut Rng) -> [u8; N] {
+    let mut p = *c;
+    for i in (1..N).rev() {
+        let j = rng.below(i as u64 + 1) as usize;
+        p.swap(i, j);
+    }
+    p
+}
+
+/// all k-subsets of 0..n in lexicographic order (harness's own slot bookkeeping)
+pub fn slot_subsets(n: usize, k: usize) -> Vec<Vec<u8>> {
+    fn rec(n: usize, k: usize, start: usize, cur: &mut Vec<u8>, out: &mut Vec<Vec<u8>>) {
+        if cur.len() == k {
+            out.push(cur.clone());
+            return;
+        }
+        for i in start..n {
+            cur.push(i as u8);
+            rec(n, k, i + 1, cur, out);
+            cur.pop();
+        }
+    }
+    let mut out = Vec::new();
+    rec(n, k, 0, &mut Vec::new(), &mut out);
+    out
+}
